@@ -73,7 +73,8 @@ CHECKS = {
              'Den(T(t)) = Den(t)^T, swapped structures, Den(T(T(t))) = Den(t), and T(t) = t for the symmetric classes. Every '
              'subject (quick: every atom plus a stratified sample) is built on the real library: dense matrices of op.T and '
              'op.T.T by basis probes against the transposed spec matrix, structures, `op.T is op` for symmetric classes, and '
-             '<Ax,y> = <x,A^T y> on integer vectors.',
+             '<Ax,y> = <x,A^T y> on integer vectors; every dense (einsum) subject is also built with complex blocks '
+             '(transpose, not adjoint: dense(op.T) = dense(op)^T without conjugation).',
         note='Transposes of the iterative inverse are excluded as in the statement; the observation-matrix operator needs a '
              'TOAST file and is not in the alphabet; exact finite parameter domain; tolerance 2e-4 (f32), 1e-9 (f64).',
         technique=TECH + 'spec-derived transposes compared with the real op.T / op.T.T by basis probes',
@@ -116,7 +117,7 @@ CHECKS = {
              'minors), orthogonal classes have M^T M = I and inverse = transpose, square classes have equal structures, symmetric '
              'classes return themselves on transposition. Replay: every lineax tag function is queried on the real operator and '
              'each tag it claims is checked against the real dense matrix (independently of the table, so a newly added wrong '
-             'tag is caught), `op.T is op`, class-level orthogonal/square decorators against the matrix and op.I.',
+             'tag is caught), `op.T is op`, class-level orthogonal/square decorators against the matrix and op.I. MC_Tags.tla models the decorators themselves on user-defined classes (one class per exported decorator and per pair, witness matrices that satisfy exactly the claimed tags): the registry after decoration, the tags of op, op.T and op.I, and what must not be inherited by a transposed / inverted view; replayed by defining those classes at run time against the real decorators.',
         note='Semidefiniteness on the replay side by eigenvalues of the symmetric part; parameter domain finite.',
         technique=TECH + 'tags queried on the real operators judged against the real and the spec matrix',
         design_ref='DESIGN.md §4 C08'),
@@ -136,7 +137,7 @@ CHECKS = {
              'R(a)^T=R(-a), R(a)HWP=HWP R(-a), Pol HWP=Pol, orthogonality, HWP^2=I (ASSUME, all pairs of angle arrays), '
              'soundness and normal form of every reduction. Every chain is executed on the real operators with the exact '
              'angles, with the angle linear forms instantiated on seeded random real angle arrays of broadcastable shapes '
-             '(matrix = product of Mueller matrices computed independently; surviving rotation angle = the spec form), and '
+             '(matrix = product of Mueller matrices computed independently; surviving rotation angle = the spec form; leaves of shape (2,) and (2,2), angles as JAX and as NumPy arrays whose buffers must not be written to), and '
              'through the create() factories when the chain is a factory product; before and after reduce(), x64 off and on; '
              'recorded reductions validated by TLC (Trace_Reduce).',
         note='Exact angle domain = integer combinations of pi/4 and atan2(4,3)/2 (cos/sin rational); real-angle lifting is '
